@@ -375,7 +375,7 @@ func main() {
 	defer ekit.CleanupFiles()
 	vkit.Main(&vkit.Spec{
 		Property: "C01", Level: "model_checking",
-		Rule: "one scenario = transport x epoll mode x socket capacity K x peer read size x writer program(s) over Write/Writev/Sendfile with sizes around K; every interleaving of writer(s), poller and peer within the preemption bound and every kernel answer (full/short count at 1, min-1 and iovec boundaries, EAGAIN when full, EINTR) within the deviation bound is executed on the real engine; non-trivial = the execution saw a short write or EAGAIN (back-pressure path exercised)",
+		Rule: "one scenario = transport x epoll mode x socket capacity K x peer read size x writer program(s) over Write/Writev/Sendfile with sizes around K (plus the 64 KiB family with K=70000: calls that end just below / at / above the coalescing threshold, and single calls that leave one queue entry of more than 64 KiB unsent in front of a socket that can take a whole unit); every interleaving of writer(s), poller and peer within the preemption bound and every kernel answer (full/short count at 1, min-1 and iovec boundaries, EAGAIN when full, EINTR) within the deviation bound is executed on the real engine; non-trivial = the execution saw a short write or EAGAIN (back-pressure path exercised)",
 		Assumptions: []string{
 			"simulated kernel (vsys): stream sockets with a K-byte send queue, epoll LT/ET/ONESHOT with Linux ready-list semantics; writability wake-ups follow TCP (only after the socket reported no space)",
 			"concurrent calls may appear in either order unless one returned before the other was invoked; the bytes of one call must be contiguous",
